@@ -22,8 +22,14 @@ paragraph), `Spec/DataSwitch.lean`.
 * `C09_switch_*` — behind CPU switches every target that reaches motpseudo.c through `DecodeMotoPseudo(Turn)` lays
   its statements independently of the flag the previous targets left; ADR/FDB/DW of such a target are in ITS byte order.
 
-What is *not* a theorem (only tested by the correspondence): the slot/cell layout (`modelRunW`, `dataBytes`), CHARSET
-statements building the table, the word widths above 16 bit (no target of the check uses them).
+* `C09_data_slot_model_eq_spec` / `C09_data_slot_bytes_model_eq_spec` — **the slot** (what mode `c09d` compares per run):
+  a list of DATA statements laid one after the other from any address: the (byte offset, byte) cells and the end address
+  of the transcription (`modelRunW`: `DecodeDATA`, the cell buffer as bytes, `WriteBytes` with `DreheCodes`) are the
+  manual's (unit offset, unit value) cells (`specRunW`) — for the word widths 10…16 every unit as its two bytes at byte
+  offset 2·unit (`unitCells`, `Lemmas/DataWord.lean`), for the widths 8 and 4 one byte per unit (`byteCells`).
+
+What is *not* a theorem (only tested by the correspondence): the word widths above 16 bit (no target of the check uses
+them).  (`CodeCHARSET` building the table: `C09_pages_charset_is_manual` in `Props/C09_Pages.lean`.)
 -/
 namespace AslModel.C09
 open AslModel.PFile (Byte b)
@@ -104,6 +110,66 @@ theorem C09_data_pack (cs : List Byte) :
   | case3 => exact ⟨rfl, rfl⟩
 
 example : packPairs [0x61, 0x62, 0x63] = [0x6261, 0x0063] := by decide
+
+/-! ## the slot -/
+
+/-- **MODEL = SPEC for a slot of DATA statements, address units of two bytes** (Int16: 3201x, 3202x/5x, 17C4x CODE;
+UInt16: 1750; Int14, Int12, Int10: PIC 16C8x/16C5x, 4500/HMCS400 CODE): every start address, listing granularity and
+`TurnWords` setting, every 256-entry table, every list of statements over the argument forms of `C09_data_model_eq_spec`. -/
+theorem C09_data_slot_model_eq_spec (typ w : Nat) (pk : Packing) (nn : Bool) (h : (typ, w, pk, nn) ∈ dataCfgs) (hw : 8 < w)
+    (t : List Byte) (ht : t.length = 256) (lg : Nat) (turn : Bool) (stmts : List (List WArg))
+    (ha : ∀ st ∈ stmts, ∀ a ∈ st, ArgOK w nn a) (pc : Nat) :
+    (mkCtx typ t).bind (fun d => modelRunW d 2 lg turn pc stmts) =
+      (specRunW ⟨w, pk, t⟩ pc stmts).map fun r => (unitCells (swapOf lg turn) r.1, r.2) := by
+  rw [ctx_of typ w pk nn h t]
+  simp only [Option.bind_some]
+  have hm : 0xff < 2 ^ w - 1 ∧ 2 ^ w - 1 ≤ 0xffff := by
+    rcases width_cfg typ w pk nn h with rfl | rfl | rfl | rfl | rfl | rfl <;> first | omega | decide
+  exact runW_units _ hm.1 hm.2 _ lg turn stmts (fun st hst => data_cfg_eq_spec typ w pk nn h t ht st (ha st hst)) pc
+
+example : (mkCtx Generated.itInt14 tableInit).bind (fun d => modelRunW d 2 2 false 8 [[.int (-1), .str [0x61, 0x62]], [.int 5]]) =
+    some ([(16, 0xff), (17, 0x3f), (18, 0x61), (19, 0), (20, 0x62), (21, 0), (22, 5), (23, 0)], 12) := by decide
+example : specRunW ⟨14, .perWord, tableInit⟩ 8 [[.int (-1), .str [0x61, 0x62]], [.int 5]] =
+    some ([(8, 0x3fff), (9, 0x61), (10, 0x62), (11, 5)], 12) := by decide
+example : (Generated.itInt14, 14, Packing.perWord, false) ∈ dataCfgs ∧ 8 < 14 := by decide
+
+/-- **MODEL = SPEC for a slot of DATA statements, address units of one byte** (Int8: 17C4x / 16C8x / 16C5x DATA; Int4: 4004,
+4500/HMCS400 DATA), `WriteBytes` not turning (`swapOf lg turn = false`: byte listing). -/
+theorem C09_data_slot_bytes_model_eq_spec (typ w : Nat) (pk : Packing) (nn : Bool) (h : (typ, w, pk, nn) ∈ dataCfgs) (hw : w ≤ 8)
+    (t : List Byte) (ht : t.length = 256) (lg : Nat) (turn : Bool) (hsw : swapOf lg turn = false) (stmts : List (List WArg))
+    (ha : ∀ st ∈ stmts, ∀ a ∈ st, ArgOK w nn a) (pc : Nat) :
+    (mkCtx typ t).bind (fun d => modelRunW d 1 lg turn pc stmts) =
+      (specRunW ⟨w, pk, t⟩ pc stmts).map fun r => (byteCells r.1, r.2) := by
+  rw [ctx_of typ w pk nn h t]
+  simp only [Option.bind_some]
+  have hm : 2 ^ w - 1 ≤ 0xff := by
+    rcases width_cfg typ w pk nn h with rfl | rfl | rfl | rfl | rfl | rfl <;> first | omega | decide
+  exact runW_bytes _ hm _ lg turn hsw stmts (fun st hst => data_cfg_eq_spec typ w pk nn h t ht st (ha st hst)) pc
+
+example : (mkCtx Generated.itInt4 tableInit).bind (fun d => modelRunW d 1 1 false 3 [[.int (-1), .str [0x61]], [.int 5]]) =
+    some ([(3, 0xf), (4, 6), (5, 1), (6, 5)], 7) := by decide
+example : (Generated.itInt4, 4, Packing.twoLocations, false) ∈ dataCfgs ∧ 4 ≤ 8 ∧ swapOf 1 false = false := by decide
+
+/-- **What the driver's `pre=1` means** (mode `c09d` evaluates `dataSlotOKb`, `Model/DataWord.lean`, on every generated
+case): the case is inside the domain of one of the two slot theorems, i.e. MODEL = SPEC holds for it by proof. -/
+theorem C09_data_slot_pre (typ w : Nat) (pk : Packing) (t : List Byte) (gran lg : Nat) (turn : Bool) (stmts : List (List WArg)) (pc : Nat)
+    (h : dataSlotOKb typ w pk t.length gran lg turn stmts = true) :
+    (gran = 2 ∧ (mkCtx typ t).bind (fun d => modelRunW d 2 lg turn pc stmts) =
+        (specRunW ⟨w, pk, t⟩ pc stmts).map fun r => (unitCells (swapOf lg turn) r.1, r.2)) ∨
+    (gran = 1 ∧ (mkCtx typ t).bind (fun d => modelRunW d 1 lg turn pc stmts) =
+        (specRunW ⟨w, pk, t⟩ pc stmts).map fun r => (byteCells r.1, r.2)) := by
+  simp only [dataSlotOKb, Bool.and_eq_true, List.any_eq_true, beq_iff_eq, decide_eq_true_eq, List.all_eq_true, Bool.or_eq_true,
+    Bool.not_eq_true'] at h
+  obtain ⟨⟨⟨q, hq, ⟨⟨⟨h1, h2⟩, h3⟩, hargs⟩⟩, ht⟩, hg⟩ := h
+  obtain ⟨qt, qw, qp, qn⟩ := q
+  simp only at h1 h2 h3 hargs
+  subst h1 h2 h3
+  have ha : ∀ st ∈ stmts, ∀ a ∈ st, ArgOK qw qn a := fun st hst a hmem => argOKb_ok qw qn a (hargs st hst a hmem)
+  rcases hg with ⟨hw, rfl⟩ | ⟨⟨hw, rfl⟩, hsw⟩
+  · exact Or.inl ⟨rfl, C09_data_slot_model_eq_spec qt qw qp qn hq hw t ht lg turn stmts ha pc⟩
+  · exact Or.inr ⟨rfl, C09_data_slot_bytes_model_eq_spec qt qw qp qn hq hw t ht lg turn hsw stmts ha pc⟩
+
+example : dataSlotOKb Generated.itInt14 14 .perWord 256 2 2 false [[.int (-1), .str [0x61, 0x62]], [.int 5]] = true := by decide
 
 /-! ## CPU switches -/
 
